@@ -1,7 +1,215 @@
-from ..model import AnalysisError
+"""C07 - protocol enforced: no put/get without a valid reservation of one's own.
+
+For put, get and both cancellations of every store class:
+  R1 the reservation is looked up among the granted reservations with a predicate containing both
+     `e == token` and `e.requesting_process == <env>.active_process` (cancellations: membership test);
+  R2 a failed look-up / an empty granted list ends in `raise RuntimeError`;
+  R3 every mutation on any path is preceded by a successful validation (a rejected call is effect free);
+  R4 the cancellations raise RuntimeError exactly when the token is in neither list;
+  R5 the success path removes the token from the list it was validated in (reuse / use-after-cancel fail R1).
+"""
+from __future__ import annotations
+
+import ast
+
+from .. import paths, storewalk, tables
+from ..model import AnalysisError, Project, self_attr
+from ..report import Result
+from ..tables import RP, RG, QP, QG, TRIGGERS, LEVEL_UPDATER
+from .common import site, src, status_str
+
 PROP = 'C07'
-LEVEL = 'other'
+LEVEL = 'proof'
+
+ENTRY = {'put': (RP, None), 'get': (RG, None), 'reserve_put_cancel': (RP, QP), 'reserve_get_cancel': (RG, QG)}
+MUT_KINDS = {'op', 'spawn', 'succeed', 'sort', 'listcall', 'rebind', 'interrupt', 'pcall', 'delete'}
 
 
-def run(p, tier):
-    raise AnalysisError('rule module for C07 not implemented yet (fail closed)')
+def is_mutation(e) -> bool:
+    if e.kind in MUT_KINDS:
+        return True
+    if e.kind == 'setattr' and e.on_self:
+        return True
+    if e.kind == 'setitem' and e.base.startswith('self'):
+        return True
+    if e.kind == 'call':
+        return True        # any un-inlined self-method call (triggers, level updater, unknown) may mutate
+    if e.kind == 'xcall':
+        return False       # calls on foreign objects with opaque effect are not store mutations
+    return False
+
+
+def pred_ok(e, token_param: str) -> (bool, str):
+    """The look-up predicate contains `var == token` and `var.requesting_process == <...>.active_process`, conjoined."""
+    var = e.var
+    has_tok = False
+    has_proc = False
+    for c in e.pred_nodes:
+        for x in ast.walk(c):
+            if isinstance(x, ast.BoolOp) and isinstance(x.op, ast.Or):
+                return False, 'predicate contains `or`'
+            if isinstance(x, ast.Compare) and len(x.ops) == 1 and isinstance(x.ops[0], (ast.Eq, ast.Is)):
+                l, r = x.left, x.comparators[0]
+                for a, b in ((l, r), (r, l)):
+                    if isinstance(a, ast.Name) and a.id == var and isinstance(b, ast.Name) and b.id == token_param:
+                        has_tok = True
+                    if isinstance(a, ast.Attribute) and a.attr == 'requesting_process' and isinstance(a.value, ast.Name) \
+                            and a.value.id == var and isinstance(b, ast.Attribute) and b.attr == 'active_process':
+                        has_proc = True
+    if not has_tok:
+        return False, 'predicate does not compare the reservation with the token'
+    if not has_proc:
+        return False, 'predicate does not compare requesting_process with the active process'
+    return True, ''
+
+
+def membership(e, token_param):
+    """(list, polarity) if the cond event is `token in self.L`."""
+    n = e.d.get('node')
+    if e.kind != 'cond' or e.d.get('synthetic') or n is None:
+        return None
+    if isinstance(n, ast.Compare) and len(n.ops) == 1 and isinstance(n.ops[0], (ast.In, ast.NotIn)) \
+            and isinstance(n.left, ast.Name) and n.left.id == token_param:
+        L = self_attr(n.comparators[0])
+        if L:
+            pol = e.polarity if isinstance(n.ops[0], ast.In) else (not e.polarity)
+            return L, pol
+    return None
+
+
+def run(p: Project, tier: str) -> Result:
+    r = Result(PROP)
+    r.explanation = ('validate(token ∧ process) dominates every mutation; failure ⇒ RuntimeError with no prior effect; '
+                     'success consumes the token - for put/get/cancel of all store classes (32 entry points).')
+    r.rule('C07.R1', 'put/get look the reservation up among the granted ones by (token, active process)', 16)
+    r.rule('C07.R2', 'every failing validation path ends in raise RuntimeError', 32)
+    r.rule('C07.R3', 'no mutation before a successful validation on any path', 32)
+    r.rule('C07.R4', 'cancellations raise RuntimeError exactly when the token is in neither list', 16)
+    r.rule('C07.R5', 'the success path removes the token from the list it was validated in', 32)
+    r.assumptions = ['tokens are compared by identity/equality of simpy.Event objects', 'env.active_process identifies the caller']
+    ws = storewalk.walks(p, assume_inv=('I1',))
+    for w in ws:
+        s = w.store
+        for entry, (granted, queue) in ENTRY.items():
+            fi = w.root_funcs[entry]
+            r.analysed_functions.add(fi.key)
+            params = [a.arg for a in fi.node.args.args if a.arg != 'self']
+            if not params:
+                raise AnalysisError(f'{fi.key}: no token parameter')
+            tok = params[0]
+            ps = w.roots[entry]
+            r.paths += len(ps)
+            check_entry(r, s, entry, fi, tok, granted, queue, ps)
+    return r
+
+
+def check_entry(r: Result, s, entry, fi, tok, granted, queue, ps):
+    base = f'{s.ci.label}.{entry}'
+    r1_bad = r2_bad = r3_bad = r4_bad = r5_bad = None
+    n_ok_paths = 0
+    for pa in ps:
+        validated = None       # list in which the token was validated
+        first_mut_before = None
+        removed_from = set()
+        lookups = []
+        member = {}
+        for e in pa.events:
+            if e.fi is not None:
+                r.analysed_functions.add(e.fi.key)
+            if e.kind == 'lookup' and e.srclist == granted:
+                lookups.append(e)
+                if e.outcome == 'found':
+                    # token parameter as seen inside the frame where the lookup happens
+                    okp, why = pred_ok(e, e.eq[0] if e.eq else '?')
+                    # the compared name must carry the entry point's token
+                    v = e.value
+                    carries = v[0] == 'found' and v[3] == ('param', tok)
+                    if not okp or not carries:
+                        r1_bad = (e, pa, why or 'the compared name is not the token parameter of the entry point')
+                    else:
+                        validated = granted
+                continue
+            m = membership(e, tok)
+            if m is not None:
+                member[m[0]] = m[1]
+                if m[1] and m[0] in (granted, queue):
+                    validated = m[0]
+                continue
+            if e.kind == 'op' and e.op in ('remove', 'pop'):
+                v = e.val
+                if v == ('param', tok) or (v is not None and v[0] == 'found' and v[3] == ('param', tok)):
+                    removed_from.add(e.list)
+            if is_mutation(e) and validated is None and first_mut_before is None:
+                first_mut_before = e
+        if first_mut_before is not None:
+            r3_bad = (first_mut_before, pa)
+        if pa.raises:
+            exc = pa.status[1]
+            failed_validation = validated is None
+            if failed_validation and exc != 'RuntimeError':
+                r2_bad = (pa, exc)
+            continue
+        if pa.status in ('loopcut',):
+            continue
+        n_ok_paths += 1
+        if validated is None:
+            # a non-raising path without validation: the call was accepted without a reservation
+            if queue is None:
+                r2_bad = (pa, 'no exception')
+            else:
+                r4_bad = (pa, 'returns although the token was found in neither list')
+        else:
+            if validated not in removed_from:
+                r5_bad = (pa, validated)
+        if queue is not None:
+            # cancellations: exactly-when
+            pass
+    # cancellation: the path with both memberships False must exist and raise RuntimeError
+    if queue is not None:
+        neither = [pa for pa in ps if paths_member(pa, tok, granted) is False and paths_member(pa, tok, queue) is False]
+        if not neither:
+            r4_bad = (ps[0], 'no path on which the token is in neither list (membership tests missing)')
+        for pa in neither:
+            if not (pa.raises and pa.status[1] == 'RuntimeError'):
+                r4_bad = (pa, f'token in neither list but the call ends with {status_str(pa.status)}')
+    line = fi.node.lineno
+    f = src(fi.module)
+    if queue is None:
+        if r1_bad:
+            e, pa, why = r1_bad
+            r.fail('C07.R1', f'{base}::lookup', f'reservation look-up is too weak: {why}', f, e.line, pa.describe())
+        elif n_ok_paths == 0:
+            r.fail('C07.R1', f'{base}::lookup', 'no successful path found', f, line)
+        else:
+            r.ok('C07.R1', f'{base}::lookup', f'look-up in {granted} by (token, active process)', f, line)
+    if r2_bad:
+        pa, exc = r2_bad
+        r.fail('C07.R2', f'{base}::failure-exit', f'a call without a valid reservation ends with {exc} instead of RuntimeError', f, line, pa.describe())
+    else:
+        r.ok('C07.R2', f'{base}::failure-exit', 'every path without successful validation raises RuntimeError', f, line)
+    if r3_bad:
+        e, pa = r3_bad
+        r.fail('C07.R3', f'{base}::effect-before-validation',
+               f'`{e.kind}` at line {e.line} ({e.d.get("list") or e.d.get("name") or e.d.get("target") or ""}) happens before the reservation is validated: '
+               f'a rejected call is not side-effect free', f, e.line, pa.describe())
+    else:
+        r.ok('C07.R3', f'{base}::effect-before-validation', 'no mutation precedes validation on any path', f, line)
+    if queue is not None:
+        if r4_bad:
+            pa, why = r4_bad
+            r.fail('C07.R4', f'{base}::unknown-token', why, f, line, pa.describe())
+        else:
+            r.ok('C07.R4', f'{base}::unknown-token', 'RuntimeError exactly when the token is in neither list', f, line)
+    if r5_bad:
+        pa, L = r5_bad
+        r.fail('C07.R5', f'{base}::consume', f'success path does not remove the token from `{L}`: the reservation can be used again', f, line, pa.describe())
+    else:
+        r.ok('C07.R5', f'{base}::consume', 'token removed from the validating list on every success path', f, line)
+
+
+def paths_member(pa, tok, L):
+    for e in pa.events:
+        m = membership(e, tok)
+        if m is not None and m[0] == L:
+            return m[1]
+    return None
